@@ -9,7 +9,10 @@
       required  element @ attribute     the constructor's required-attribute loop
       factory   element                 an element factory producing this qname exists
 
-  Names are written `n!"prefix:local"` (one numeral per name, see GrammarNamesCodec); the item `*`
+  Names are written `n!"prefix:local"` with the prefix the SCHEMA files declare for the namespace,
+  and `n!"{namespace URI}local"` for a namespace they do not declare (one numeral per name, see
+  GrammarNamesCodec; identity in the tables is always the (namespace URI, local name) pair, the
+  names are for these lists and for messages only); the item `*`
   stands for every child / attribute of the row (used where a whole table row is missing).
 
   * `Exceptions`      deliberate extensions / omissions that the repository itself documents.
@@ -71,9 +74,9 @@ def Exceptions : List Row := [
   -- LOEXTNS ("urn:org:documentfoundation:names:experimental:office:xmlns:loext:1.0"),
   -- odf/attrconverters.py registers converters for exactly these three attributes, and
   -- tests/testcontextualspacing.py pins loext:contextual-spacing on style:paragraph-properties.
-  ⟨.attrs, n!"style:paragraph-properties", n!"loext:contextual-spacing"⟩,
-  ⟨.attrs, n!"style:page-layout-properties", n!"loext:scale-to-X"⟩,
-  ⟨.attrs, n!"style:page-layout-properties", n!"loext:scale-to-Y"⟩,
+  ⟨.attrs, n!"style:paragraph-properties", n!"{urn:org:documentfoundation:names:experimental:office:xmlns:loext:1.0}contextual-spacing"⟩,
+  ⟨.attrs, n!"style:page-layout-properties", n!"{urn:org:documentfoundation:names:experimental:office:xmlns:loext:1.0}scale-to-X"⟩,
+  ⟨.attrs, n!"style:page-layout-properties", n!"{urn:org:documentfoundation:names:experimental:office:xmlns:loext:1.0}scale-to-Y"⟩,
   -- Elements whose attributes are `<anyName/>` in the schema get `None` in allowed_attributes
   -- (grammar/gen_allowed_attrs.py: `__ANYNAME__` → `None`), and Element.setAttribute then asks for
   -- (namespace, localpart) pairs instead of keywords ("Unable to add simple attribute - use
